@@ -438,6 +438,10 @@ def _run_case(case, rep, timeout_ms, cross, validate, deadline):
     rep.over_approx = stats.unknown_feas
     st = rep.solve
     for pi, pr in enumerate(paths):
+        if deadline is not None and time.time() > deadline:
+            # never run past the budget: what was found so far is reported, the rest counts as not decided
+            rep.errors.append(f"time budget exhausted after {pi} of {len(paths)} paths")
+            break
         oc = Outcome(pr.kind, pr.value)
         key = oc.describe() if oc.kind == "exc" else "ok"
         rep.outcomes[key] = rep.outcomes.get(key, 0) + 1
